@@ -94,12 +94,15 @@ DoBuild(st, id, s) ==
                      !.outs = @ \cup {allouts[i] : i \in DOMAIN allouts},
                      !.nodes = @ \cup {allouts[i] : i \in DOMAIN allouts} \cup {(ex \o im \o oo \o vals)[i] : i \in DOMAIN (ex \o im \o oo \o vals)}]
 
+Given(b, n) == n \in DOMAIN b /\ b[n] # <<>>
 DoRule(st, id, s) ==
   LET b == Fn(s.binds) IN
-  IF s.name \in DOMAIN st.sc[id].rules THEN Fail(st, "duplicate rule")
+  \* the phony rule is predeclared in the top scope (a subninja scope may declare its own)
+  IF s.name \in DOMAIN st.sc[id].rules \/ (s.name = "phony" /\ id = 1) THEN Fail(st, "duplicate rule")
   ELSE IF \E i \in DOMAIN s.binds : s.binds[i].name \notin Reserved THEN Fail(st, "unexpected variable")
-  ELSE IF ("rspfile" \in DOMAIN b) # ("rspfile_content" \in DOMAIN b) THEN Fail(st, "rspfile and rspfile_content need to be both specified")
-  ELSE IF "command" \notin DOMAIN b THEN Fail(st, "expected 'command =' line")
+  \* a binding whose value is empty counts as not given ("command =" is a missing command)
+  ELSE IF Given(b, "rspfile") # Given(b, "rspfile_content") THEN Fail(st, "rspfile and rspfile_content need to be both specified")
+  ELSE IF ~Given(b, "command") THEN Fail(st, "expected 'command =' line")
   ELSE [st EXCEPT !.sc[id].rules = [n \in DOMAIN @ \cup {s.name} |-> IF n = s.name THEN b ELSE @[n]]]
 
 DoLet(st, id, s) ==
@@ -137,7 +140,7 @@ DoFile(files, st, id, f, i, depth) ==
 \* ---- late expansion of the rule bindings of an edge --------------------------------------------
 JoinP(q) == LET RECURSIVE J(_) J(i) == IF i > Len(q) THEN "" ELSE IF i = Len(q) THEN q[i] ELSE q[i] \o " " \o J(i + 1) IN J(1)
 \* $in / $out are shell-quoted (C16) except in depfile, rspfile and dyndep; of the grammar's paths these need quotes
-Q(p, esc) == IF esc /\ p \in {"x:y", "a b", "ox:y", "$", "o$", "i$", "oa b", "ia b"} THEN "'" \o p \o "'" ELSE p
+Q(p, esc) == IF esc /\ p \in {"x:y", "a b", "ox:y", "$", "o$", "i$", "oa b", "ia b", "=", ">", ":", "|", "||", "|@"} THEN "'" \o p \o "'" ELSE p
 RECURSIVE EdgeVar(_, _, _, _, _)
 EdgeVar(st, e, n, fuel, esc) ==
   IF n = "in" \/ n = "in_newline" THEN JoinP([i \in DOMAIN e.ex |-> Q(e.ex[i], esc)])
